@@ -95,6 +95,10 @@ def live_children():
     return sorted(out)
 
 
+def _child_work():
+    pass
+
+
 def main():
     case = json.load(sys.stdin)
     ids, beh = case['ids'], case['beh']
@@ -126,6 +130,11 @@ def main():
             time.sleep(HANG)
         if k == 'late' and in_worker:
             time.sleep(max(0.0, t0 + give_up + LATE_DELTA - time.time()))
+        if b.get('child'):
+            import multiprocessing
+            child = multiprocessing.Process(target=_child_work)
+            child.start()
+            child.join()
         note('A %s %.6f %.6f' % (rid, t0, time.time()))       # the player call is over (it returns or raises now)
         if k == 'playerRaises':
             raise RuntimeError(b['m'])
